@@ -114,6 +114,9 @@ func newTarget(coll bool, w *fieldmaskpb.FieldMask, stored proto.Message) target
 	if coll {
 		return target{c: resource.NewCollection(append(opts, resource.WithInitialRecord("id", stored), resource.WithInitialRecord("other", proto.Clone(stored)))...)}
 	}
+	if stored == nil {
+		return target{v: resource.NewValue(opts...)} // a Value that was never given a value: its first write
+	}
 	return target{v: resource.NewValue(append(opts, resource.WithInitialValue(stored))...)}
 }
 
@@ -122,7 +125,10 @@ func (g target) get(id string) proto.Message {
 		m, _ := g.c.Get(id)
 		return m
 	}
-	return g.v.Get()
+	if m := g.v.Get(); m != nil && m.ProtoReflect().IsValid() {
+		return m
+	}
+	return &lib.T{} // nothing stored yet reads as the empty message
 }
 
 // check one tuple on a fresh resource; returns (violation key, message) or "".
@@ -131,7 +137,11 @@ func check(t tuple) (string, string) {
 	if t.W != nil {
 		w = lib.FM(t.W...)
 	}
-	return step(newTarget(t.Coll, w, proto.Clone(cat[t.S])), "id", t)
+	var stored proto.Message
+	if t.S >= 0 {
+		stored = proto.Clone(cat[t.S])
+	}
+	return step(newTarget(t.Coll, w, stored), "id", t)
 }
 
 // step applies the write described by t (its S is ignored: the stored message is whatever the resource holds)
@@ -472,13 +482,16 @@ func main() {
 			for _, W := range Ws {
 				for _, X := range Xs {
 					for ri, R := range Rs {
-						for S := 0; S < n; S++ {
+						for S := -1; S < n; S++ { // -1: a Value without an initial value (its first write)
 							for Wr := 0; Wr < n; Wr++ {
-								if !s.Thorough && (S+Wr+mi+ri)%4 != 0 && !(S == n-1 || Wr == n-1 || Wr == 0) {
+								if !s.Thorough && S >= 0 && (S+Wr+mi+ri)%4 != 0 && !(S == n-1 || Wr == n-1 || Wr == 0) {
 									continue // quick: a quarter of the stored x written grid, plus the full and empty messages
 								}
+								if !s.Thorough && S < 0 && (Wr+mi+ri)%2 != 0 && Wr != n-1 {
+									continue
+								}
 								for _, coll := range []bool{false, true} {
-									if coll && (S+Wr)%5 != 0 {
+									if coll && (S < 0 || (S+Wr)%5 != 0) {
 										continue
 									}
 									t := tuple{S: S, Wr: Wr, M: M, W: W, X: X.x, XAll: X.all, R: R, Coll: coll}
